@@ -19,8 +19,12 @@ MUTANTS = [
     M("filter-chain-first", PD, "        filter_type = filter_type[-1] if filter_type else \"\"", "        filter_type = filter_type[0] if filter_type else \"\"", "C14-CHAIN"),
     M("flate-content-type-jpeg", PD, '    "/FlateDecode": "image/png",', '    "/FlateDecode": "image/jpeg",', "C14-CHAIN"),
     M("docx-extension-not-lowered", DOCXF, '            ext = target.rsplit(".", 1)[-1].lower()', '            ext = target.rsplit(".", 1)[-1]', "C14-TYPE"),
+    M("docx-image-target-glued", X + "ms_modern/docx_extractor.py", "        image_path = _resolve_word_target(target)\n", "        image_path = \"word/\" + target\n", "C14-REF"),
+    M("pptx-absolute-target-under-slide-dir", X + "ms_modern/pptx_extractor.py", "        target_parts = [part for part in target.split(\"/\") if part and part != \"..\"]\n        return \"/\".join(target_parts)\n", "        target_parts = [part for part in target.split(\"/\") if part and part != \"..\"]\n        target = \"/\".join(target_parts)\n        return f\"{base_dir}/{target}\"\n", "C14-REF"),
+    M("xlsx-sheet-part-by-position", X + "ms_modern/xlsx_extractor.py", "            if sheet_idx < len(sheet_parts) and sheet_parts[sheet_idx]:\n                part_dir, _, part_name = sheet_parts[sheet_idx].rpartition(\"/\")\n                rels_path = f\"{part_dir}/_rels/{part_name}.rels\"\n            else:\n                rels_path = f\"xl/worksheets/_rels/sheet{sheet_idx + 1}.xml.rels\"\n", "            rels_path = f\"xl/worksheets/_rels/sheet{sheet_idx + 1}.xml.rels\"\n", "C14-REF"),
 ]
 TWINS = [
+    T("docx-target-resolver-early-return", X + "ms_modern/docx_extractor.py", "    if target.startswith(\"/\"):\n        path = target\n    else:\n        path = \"word/\" + target\n", "    path = target\n    if not target.startswith(\"/\"):\n        path = \"word/\" + target\n"),
     T("counter-renamed-epub", X + "epub_extractor.py", "            data = ctx.read_bytes(href)\n            # Count only images that could be read, so numbers stay gap-free\n            image_counter += 1\n", "            data = ctx.read_bytes(href)\n            image_counter = image_counter + 0\n            image_counter += 1\n"),
     T("filter-chain-len-minus-one", PD, "        filter_type = filter_type[-1] if filter_type else \"\"", "        filter_type = filter_type[len(filter_type) - 1] if filter_type else \"\""),
     T("docx-extension-casefold", DOCXF, '            ext = target.rsplit(".", 1)[-1].lower()', '            ext = target.rsplit(".", 1)[-1].casefold()'),
